@@ -82,3 +82,13 @@ Theorem C09_kernels_generated : forall p mode amount amt,
     gp_of (part_upd p (p_liq p - amt) (p_crl p - amt) (p_enf p) (p_tba p) (p_crtb p) (p_maxloss p) (p_crml p) (p_crml_odds p) (p_profit p)).
 Proof. intros. split; [reflexivity|]. split; [apply gen_WithdrawableAmount|reflexivity]. Qed.
 Print Assumptions C09_kernels_generated.
+
+(* the keeper function that decides what a house withdrawal may take, CalcWithdrawalAmount of x/orderbook/keeper/participation.go, is
+   generated on every run as a function on (participations of the book, exposures recorded for the participation asked about) and IS the
+   model's calc_withdrawal - the participation exists, is not settled, belongs to the named depositor, is still in its first round, a partial
+   amount is within what was deposited minus what was withdrawn, and then WithdrawableAmount - so C09_withdraw above speaks about that Go
+   function *)
+Theorem C09_calc_withdrawal_generated : forall b depositor idx mode wtotal amount,
+  K_obwd_CalcWithdrawalAmount (obwd_state b idx) depositor idx mode wtotal amount = calc_withdrawal b depositor idx mode wtotal amount.
+Proof. exact gen_CalcWithdrawalAmount. Qed.
+Print Assumptions C09_calc_withdrawal_generated.
